@@ -148,6 +148,7 @@ def run(ctx):
     poly_mul(ctx, facts)
     known_value(ctx, facts)
     reshare(ctx, facts)
+    reveal_algebra(ctx, facts)
     wiring(ctx, facts)
     aggregate(ctx, facts)
     from rules import C01
@@ -801,3 +802,78 @@ def aggregate(ctx, facts):
             if (F.callee(t)[0] or "").endswith("::div_ceil"):
                 okn = flow.strip_casts(flow.expr_of(outer, t["args"][1])) == ("const", 2)
     ctx.ob("WIRE-aggregate", "next-level-ceil-half", okn, "next level has ceil(n / 2) rows" if okn else "the number of rows of the next level is not ceil(n/2): an odd leftover row is dropped", site_of(outer) if outer is not None else site_of(b))
+
+
+# ---------------------------------------------------------------------------------------------
+def reveal_algebra(ctx, facts):
+    """Opening a replicated sharing: helper i holds (s_i, s_{i+1}) and needs s_{i+2}.  Its left neighbour holds it as its
+    LEFT component, its right neighbour as its RIGHT component.  So: what goes to the right peer is `left`, what goes to
+    the left peer is `right`, and the opened value is received + left + right."""
+    from rules.C06 import upvar_sources
+    ctx.rule("POLY-reveal: in semi_honest_reveal and malicious_reveal every send to the peer in direction d carries the component the peer lacks (d = Right: left_arr, d = Left: right_arr), every receive comes from a peer that sends in the opposite direction, and the opened value is (a received share) + left + right with each term exactly once; the malicious variant compares the two received copies before using one")
+    old = flow.CLOSURE_DEFS
+    flow.CLOSURE_DEFS = True
+    try:
+        for root in ("protocol::basics::reveal::semi_honest_reveal", "protocol::basics::reveal::malicious_reveal"):
+            tree = facts.tree(root)
+            main = next((b for b in tree if b.coroutine), None)
+            if main is None:
+                ctx.missing("POLY-reveal", root)
+                continue
+            ctx.count(bodies=len(tree))
+            name = root.split("::")[-1]
+            def resolve(e, body, depth=0):
+                if e[0] == "upvar" and body is not main and depth < 4:
+                    for parent in tree:
+                        srcs = upvar_sources(facts, parent, body.path)
+                        if e[1] in srcs:
+                            return resolve(srcs[e[1]], parent, depth + 1)
+                return e
+            def direction(e):
+                m = re.findall(r"'helpers::Direction', '(Left|Right)'", str(e))
+                return m[0] if len(set(m)) == 1 else None
+            def component(e):
+                s_ = str(e)
+                l, r = "left_arr" in s_ or "::left'" in s_, "right_arr" in s_ or "::right'" in s_
+                return "left" if l and not r else ("right" if r and not l else None)
+            sends = []
+            for b in tree:
+                for bb, t in b.calls():
+                    fn = F.callee(t)[0] or ""
+                    if fn.endswith("::send") and len(t["args"]) == 3:
+                        ch = resolve(flow.expr_of(b, t["args"][0], max_depth=10), b)
+                        val = resolve(flow.expr_of(b, t["args"][2], max_depth=10), b)
+                        sends.append((b, bb, direction(ch), component(val)))
+            recvs = [(bb, direction(flow.expr_of(main, t["args"][0], max_depth=10))) for bb, t in main.calls() if (F.callee(t)[0] or "").endswith("::receive")]
+            want_s = {("Right", "left")} if name.startswith("semi") else {("Right", "left"), ("Left", "right")}
+            got_s = {(d, c) for _, _, d, c in sends}
+            oks = got_s == want_s and len(sends) == len(want_s)
+            ctx.ob("POLY-reveal", f"{name}:sends-the-missing-component", oks, f"sends {sorted(got_s)}" if oks else f"sends {sorted(map(str, got_s))}, expected {sorted(want_s)}: a helper is sent a share it already holds, so what it opens is not the secret", site_of(sends[0][0], sends[0][1]) if sends else site_of(main))
+            want_r = {"Left"} if name.startswith("semi") else {"Left", "Right"}
+            got_r = {d for _, d in recvs}
+            okr = got_r == want_r and len(recvs) == len(want_r) and all(({"Left": "Right", "Right": "Left"}[d], None) != (None, None) and any(sd == {"Left": "Right", "Right": "Left"}[d] for _, _, sd, _ in sends) for d in got_r)
+            ctx.ob("POLY-reveal", f"{name}:receives-from-the-senders", okr, f"receives from {sorted(got_r)}" if okr else f"receives from {sorted(map(str, got_r))}: not matched by a send in the opposite direction", site_of(main, recvs[0][0]) if recvs else site_of(main))
+            # opened value
+            oko, why = False, "no Ok(Some(..)) value found"
+            for bb, idx, s in main.iter_assigns():
+                r = s["r"]
+                if r["k"] == "agg" and r.get("adt") == "std::option::Option" and r.get("vn") == "Some":
+                    e = flow.expr_of(main, r["ops"][0], max_depth=30)
+                    def leaf(x):
+                        x = flow.strip_casts(x)
+                        if x[0] == "call" and re.search(r"::(left_arr|left)$", x[1]):
+                            return Poly.var("left")
+                        if x[0] == "call" and re.search(r"::(right_arr|right)$", x[1]):
+                            return Poly.var("right")
+                        if x[0] == "proj" and ("Future::poll" in str(x) or "::receive" in str(x)):
+                            return Poly.var("received")
+                        return None
+                    try:
+                        p = ev(e, leaf)
+                        oko = p == Poly.var("received") + Poly.var("left") + Poly.var("right")
+                        why = "received + left + right" if oko else f"the opened value is {dict(p)}"
+                    except Unknown as u:
+                        why = f"cannot read the opened value ({u})"
+            ctx.ob("POLY-reveal", f"{name}:opened=received+left+right", oko, why, site_of(main))
+    finally:
+        flow.CLOSURE_DEFS = old
